@@ -1,55 +1,121 @@
 /-
-  TL schema definitions as data (the reading of a .tl file), their printer, and the canonical
-  form whose CRC-32 is the constructor id.
+  TL schema definitions as data (the reading of a .tl file), their printer, and the canonical form
+  whose CRC-32 is the constructor id.
+
+  Everything here is meant for KERNEL evaluation over tables of ~1200 definitions, and the kernel is
+  slow on `String` (any decomposition or concatenation of a string costs seconds). Text is therefore
+  carried as `BStr`: its length and its bytes read as one big-endian natural number — equality,
+  concatenation and byte extraction are a handful of GMP-accelerated `Nat` operations.
 -/
 import Mtv.Basic
 namespace Mtv.Schema
 
+/-- a byte string as (length, big-endian value) -/
+structure BStr where
+  len : Nat
+  val : Nat
+  deriving DecidableEq, Repr, Inhabited
+
+namespace BStr
+def empty : BStr := ⟨0, 0⟩
+def append (a b : BStr) : BStr := ⟨a.len + b.len, a.val * 256 ^ b.len + b.val⟩
+instance : Append BStr := ⟨append⟩
+def ofByte (b : Nat) : BStr := ⟨1, b % 256⟩
+def byteAt (s : BStr) (i : Nat) : Nat := (s.val / 256 ^ (s.len - 1 - i)) % 256
+/-- bytes, first to last -/
+def bytes (s : BStr) : List Nat := (List.range s.len).map s.byteAt
+/-- run-time only: the text -/
+def toString (s : BStr) : String := String.ofList (s.bytes.map Char.ofNat)
+/-- elaboration/run-time only: from ASCII text (the generated files carry literals instead) -/
+def ofString (s : String) : BStr := s.toList.foldl (fun a c => a ++ ofByte c.toNat) empty
+def beq (a b : BStr) : Bool := a.len == b.len && a.val == b.val
+instance : BEq BStr := ⟨beq⟩
+/-- well-formedness of a literal: the value fits the length -/
+def wf (s : BStr) : Bool := decide (s.val < 256 ^ s.len)
+end BStr
+
+def joinB : List BStr → BStr
+  | [] => BStr.empty
+  | x :: xs => x ++ joinB xs
+
+/-- decimal digits of a small number (flag bits are below 32; ids are written in hex elsewhere) -/
+def decB (n : Nat) : BStr :=
+  if n < 10 then BStr.ofByte (48 + n)
+  else if n < 100 then BStr.ofByte (48 + n / 10) ++ BStr.ofByte (48 + n % 10)
+  else BStr.ofByte (48 + n / 100) ++ BStr.ofByte (48 + n / 10 % 10) ++ BStr.ofByte (48 + n % 10)
+
+-- frequently used literals
+def bSpace : BStr := ⟨1, 0x20⟩
+def bHash : BStr := ⟨1, 0x23⟩
+def bColon : BStr := ⟨1, 0x3a⟩
+def bEq : BStr := ⟨3, 0x203d20⟩          -- " = "
+def bBang : BStr := ⟨1, 0x21⟩
+def bPercent : BStr := ⟨1, 0x25⟩
+def bQuestion : BStr := ⟨1, 0x3f⟩
+def bFlagsDot : BStr := ⟨6, 0x666c6167732e⟩   -- "flags."
+def bVectorLt : BStr := ⟨7, 0x566563746f723c⟩ -- "Vector<"
+def bvectorLt : BStr := ⟨7, 0x766563746f723c⟩ -- "vector<"
+def bVectorSp : BStr := ⟨7, 0x566563746f7220⟩ -- "Vector "
+def bvectorSp : BStr := ⟨7, 0x766563746f7220⟩ -- "vector "
+def bGt : BStr := ⟨1, 0x3e⟩
+def bLBrace : BStr := ⟨1, 0x7b⟩
+def bRBrace : BStr := ⟨1, 0x7d⟩
+def bString : BStr := ⟨6, 0x737472696e67⟩     -- "string"
+def bBytes : BStr := ⟨5, 0x6279746573⟩        -- "bytes"
+def bTrue : BStr := ⟨4, 0x74727565⟩           -- "true"
+def bInt : BStr := ⟨3, 0x696e74⟩
+def bLong : BStr := ⟨4, 0x6c6f6e67⟩
+def bDouble : BStr := ⟨6, 0x646f75626c65⟩
+def bBool : BStr := ⟨4, 0x426f6f6c⟩           -- "Bool"
+def bInt128 : BStr := ⟨6, 0x696e74313238⟩
+def bInt256 : BStr := ⟨6, 0x696e74323536⟩
+def bObject : BStr := ⟨6, 0x4f626a656374⟩     -- "Object"
+
 inductive STy where
   | flagsWord                       -- `#`
-  | prim (n : String)               -- int long double string bytes Bool true int128 int256
+  | prim (n : BStr)                 -- int long double string bytes Bool true int128 int256
   | vec (boxed : Bool) (e : STy)    -- Vector<e> (boxed) / vector<e> (bare)
-  | ref (n : String)                -- a boxed type (`InputPeer`) or a bare constructor name
-  | bare (n : String)               -- `%T`
-  | bang (n : String)               -- `!X`
-  | typeParam (k : String)          -- `{X:Type}` (k = "Type")
+  | ref (n : BStr)                  -- a boxed type (`InputPeer`) or a bare constructor name
+  | bare (n : BStr)                 -- `%T`
+  | bang (n : BStr)                 -- `!X`
+  | typeParam (k : BStr)            -- `{X:Type}` (k = "Type")
   deriving Repr, DecidableEq, Inhabited
 
 structure Param where
-  name : String
+  name : BStr
   cond : Option Nat                 -- `flags.N?`
   ty : STy
   deriving Repr, DecidableEq
 
 structure Def where
-  name : String
+  name : BStr
   id : Nat
-  idText : String                   -- the id as written (hex, possibly fewer than 8 digits)
+  idText : BStr                     -- the id as written (hex, possibly fewer than 8 digits)
   params : List Param
-  result : String
+  result : BStr
   isFunc : Bool
-  raw : String                      -- the source line, whitespace-normalised, without the `;`
+  raw : BStr                        -- the source line, whitespace-normalised, without the `;`
   deriving Repr
 
-def renderTy : STy → String
-  | .flagsWord => "#"
+def renderTy : STy → BStr
+  | .flagsWord => bHash
   | .prim n => n
-  | .vec true e => "Vector<" ++ renderTy e ++ ">"
-  | .vec false e => "vector<" ++ renderTy e ++ ">"
+  | .vec true e => bVectorLt ++ renderTy e ++ bGt
+  | .vec false e => bvectorLt ++ renderTy e ++ bGt
   | .ref n => n
-  | .bare n => "%" ++ n
-  | .bang n => "!" ++ n
+  | .bare n => bPercent ++ n
+  | .bang n => bBang ++ n
   | .typeParam k => k
 
-def renderParam (p : Param) : String :=
+def renderParam (p : Param) : BStr :=
   match p.ty with
-  | .typeParam k => "{" ++ p.name ++ ":" ++ k ++ "}"
+  | .typeParam k => bLBrace ++ p.name ++ bColon ++ k ++ bRBrace
   | t =>
     match p.cond with
-    | none => p.name ++ ":" ++ renderTy t
-    | some n => p.name ++ ":flags." ++ toString n ++ "?" ++ renderTy t
+    | none => p.name ++ bColon ++ renderTy t
+    | some n => p.name ++ bColon ++ bFlagsDot ++ decB n ++ bQuestion ++ renderTy t
 
-def render (d : Def) : String :=
-  d.name ++ "#" ++ d.idText ++ String.join (d.params.map fun p => " " ++ renderParam p) ++ " = " ++ d.result
+def render (d : Def) : BStr :=
+  d.name ++ bHash ++ d.idText ++ joinB (d.params.map fun p => bSpace ++ renderParam p) ++ bEq ++ d.result
 
 end Mtv.Schema
